@@ -520,7 +520,7 @@ def _add_cases(tier, control):
             if rank == 3:
                 ps = profiles(5, 3)
                 for i, ba in enumerate(ps):
-                    if thorough or i % 5 == 0:
+                    if thorough or i % (6 if d == 2 else 20) == 0:
                         one(5, d, 3, ba, ps[(7 * i + 3) % len(ps)])
         for N in (2, 3, 4):
             for rank in (3, 4):
@@ -580,16 +580,20 @@ def _mps_cases(tier, control, seed):
                 one(4, d, ba, ps[(11 * i + 7) % len(ps)], OC[(k + 2) % 5], k + 1, fill=1, fill_b=3)
         for i, ba in enumerate(profiles(4, 2)):
             k += 1
-            one(4, d, ba, [1, 1, 1], OC[k % 5], k)
+            if d == 2 or thorough:
+                one(4, d, ba, [1, 1, 1], OC[k % 5], k)
             if thorough and d == 2:
-                for bb in profiles(4, 2):
-                    k += 1
-                    one(4, d, ba, bb, OC[k % 5], k)
+                for j, bb in enumerate(profiles(4, 2)):
+                    if (i + j) % 4 == 0:                     # both fully symbolic: 2^(2N) d^N x bond paths monomials
+                        k += 1
+                        one(4, d, ba, bb, OC[k % 5], k)
         ps = profiles(5, 3)
         for i, ba in enumerate(ps):
-            if thorough or i % 6 == 0:
-                k += 1
+            k += 1
+            if thorough and i % 2 == 0:
                 one(5, d, ba, ps[(13 * i + 4) % len(ps)], OC[k % 6], k, fill=2)
+            elif i % 4 == 1:
+                one(5, d, ba, ps[(13 * i + 4) % len(ps)], OC[k % 6], k, fill=1)
     return out
 
 
@@ -620,7 +624,7 @@ def _mpo_cases(tier, control, seed):
         for i, ba in enumerate(ps):
             k += 1
             one(3, d, ba, ps[(4 * i + 1) % 9], k, fill_p=0, w=2e4 * _prod(ba))
-            if d == 2 or max(ba) <= 2:
+            if d == 2 or (thorough and max(ba) <= 2):
                 one(3, d, ba, ps[(7 * i + 5) % 9], k + 1, fill_p=1, w=2e5 * _prod(ba))
             if max(ba) <= 2 and d == 2:
                 one(3, d, ps[(2 * i + 3) % 9], ba, k + 2, fill=1, fill_p="full", w=8e5)
@@ -629,7 +633,7 @@ def _mpo_cases(tier, control, seed):
             for bp in profiles(3, 2):
                 if d == 3 and not (thorough and _prod(ba) * _prod(bp) <= 2):
                     continue
-                if d == 2 and not thorough and _prod(bp) > 2:
+                if d == 2 and not thorough and _prod(bp) > 1:
                     continue
                 k += 1
                 one(3, d, ba, bp, k, w=_prod(ba) * _prod(bp) ** 2 * d ** 6 * 512)
